@@ -25,7 +25,7 @@ import replay as rp
 from engine import Engine
 import explore as ex
 
-EVID = os.path.join(VERIF, 'evidence')
+EVID = os.environ.get('VERIF_EVIDENCE_DIR') or os.path.join(VERIF, 'evidence')   # override: seeded-change trials only
 REPLAYS = os.path.join(EVID, 'replays')
 KNOWN = os.path.join(VERIF, 'known_findings.json')
 
@@ -131,19 +131,14 @@ def main():
     # `unsupported` (=> INCONCLUSIVE unless a natively confirmed violation is found on another path).
     bad = [(p, g) for p, g in gate.items() if g['disagreements']]
     gate_unsupported = sorted(set('%s' % d for p, g in gate.items() for s, d in g['unsupported']))
+    nonconformant = []
     if bad and getattr(mod, 'NEEDS_CONFORMANCE', True):
-        print('INCONCLUSIVE property=%s reason=encoder-does-not-conform' % pid)
+        # The encoder and the native build disagree on a corpus input.  Either the encoder is wrong, or the tree keeps
+        # state between calls that the corpus run (one process, one thread, inputs in order) exposes.  No HELD verdict can
+        # be given; the exploration still runs, and a violation it finds AND the native replay confirms is reported.
         for p, g in bad:
             for s, d in g['disagreements'][:5]:
-                print('  [%s] %r: %s' % (p, s, '; '.join(d)[:300]))
-            for s, d in g['unsupported'][:5]:
-                print('  [%s] %r: %s' % (p, s, d[:300]))
-        write_evidence(pid, {'property_id': pid, 'tier': tier, 'seed': seed, 'level': 'model_checking',
-                             'coverage': {'evaluations': 1, 'distinct_nontrivial': 2,
-                                          'explanation': 'encoder conformance corpus failed; no verdict'},
-                             'wall_s': time.time() - t0, 'violations': 0, 'status': 'nonconformant',
-                             'conformance': gate})
-        return 2
+                nonconformant.append('encoder-does-not-conform [%s] %r: %s' % (p, s, '; '.join(d)[:300]))
     try:
         res = mod.run(ctx)
     except Exception:
@@ -184,6 +179,7 @@ def main():
     inconc = list(res.get('inconclusive', []))
     for u in gate_unsupported[:5]:
         inconc.append('conformance corpus input not interpretable: ' + u[:200])
+    inconc.extend(nonconformant)
     if tier == 'quick' and ex.GLOBAL_STATS['truncated']:
         # the quick tier is sized to finish; running out of the wall budget means the stated bound was not covered
         inconc.append('exploration cut by the wall budget before the stated bound was covered (%d exploration(s))' % ex.GLOBAL_STATS['truncated'])
